@@ -4,6 +4,7 @@ import XPathV.Model.Api
 import XPathV.Lemmas.Facts
 import XPathV.Lemmas.PredSem
 import XPathV.Lemmas.PredSem2
+import XPathV.Lemmas.ApiSem
 import XPathV.Lemmas.Pull2Proofs
 /-!
 # C02 — boolean predicates keep exactly the nodes for which the predicate is true
@@ -205,5 +206,27 @@ theorem C02_built_predicate_truth {d : Doc} (wf : WF d) (cfg : ECfg) (hns : cfg.
       Spec.eval (F := F) d b ⟨c, pos, size⟩ = .ok (.val sv g) ∧
       truthM v = Spec.toBool sv ∧ IsBN v ∧ NotNum sv :=
   built_pred_truth2 wf cfg hns hinj regexOk limit b hb fl st o hbuild c hc pos size
+
+open XPathV.PathSem XPathV.PredSem XPathV.ApiSem in
+/-- **C02 at the public API, from the expression text**: on a text that parses into the
+fragment, `compile` at the source configuration either reports a builder error (the depth limit)
+or returns a plan on which `Select` and `Evaluate` agree with the oracle at every valid context
+node of every well-formed document; `compile` never fails for lack of parser fuel
+(`compile_never_out_of_fuel`) -/
+theorem C02_from_text (regexOk : RegexOk) (ns : Option (List (String × String)))
+    (text : List Char) (a : Ast) (hparse : parse (fuelFor text) (defaultCfg ns) text = .ok a)
+    (hfrag : Frag true a) :
+    (∃ e, compile { regexOk := regexOk } ns text = .error (.build e)) ∨
+    (∃ p, compile { regexOk := regexOk } ns text = .ok p ∧ PathShape p ∧
+      ∀ (F : Type) [NumAlg F] (d : Doc), WF d → ∀ cfg : ECfg, cfg.nsIface = true → HashInj d cfg →
+        ∀ c, validRef d c = true →
+          ∃ l nsl, selectAll (F := F) d cfg p c = .ok l ∧ evaluate (F := F) d cfg p c = .ok (.nodes l) ∧
+            Spec.evalTop (F := F) d a c = .ok (.nodes nsl) ∧ ∀ x, x ∈ l ↔ x ∈ nsl) :=
+  C02_compile_total regexOk ns text a hparse hfrag
+
+open XPathV.ApiSem in
+theorem compile_never_out_of_fuel (cc : CompileCfg) (ns : Option (List (String × String))) (text : List Char) :
+    compile cc ns text ≠ .error (.parse .fuel) :=
+  compile_ne_fuel cc ns text
 
 end XPathV.Theorems.C02
